@@ -62,6 +62,7 @@ CLAIMED = {
 
 def built():
     exe = os.path.join(ROOT, "build", "plain", "inosim")
+    subprocess.run(["make", "-s", "-j16", "V=plain"], cwd=ROOT, stdout=subprocess.DEVNULL, stderr=subprocess.DEVNULL)
     try:
         out = subprocess.run([exe, "list"], stdout=subprocess.PIPE, text=True).stdout.split()
         return set(out)
